@@ -53,22 +53,14 @@ pub fn any_world(setup_read: bool, pat: [u8; NI]) -> W {
     } else {
         world.setup::<WriteStorage<CB>>();
     }
-    let (ent0, es) = all_alive();
-    {
-        let mut e = world.write_resource::<EntitiesRes>();
-        forget(std::mem::replace(&mut *e, ent0));
-    }
+    let es = all_alive_into(&mut world.write_resource::<EntitiesRes>());
     let ma = fill::<CA>(&world, &es, [0, 1, 2], CA);
     let mb = fill::<CB>(&world, &es, [2, 0, 1], CB);
-    let (ent, st) = pattern_entities(pat);
+    let st = pattern_entities_into(&mut world.write_resource::<EntitiesRes>(), pat);
     for i in 0..NI {
         // a reachable world: a dead index has no component anywhere (C05's own invariant,
         // re-established by `check_after`)
         nd::assume(st[i].occupied() || (ma[i].is_none() && mb[i].is_none()));
-    }
-    {
-        let mut e = world.write_resource::<EntitiesRes>();
-        forget(std::mem::replace(&mut *e, ent));
     }
     W { world, ma, mb, st }
 }
